@@ -34,6 +34,18 @@ type c17Case struct {
 	Listing bool     `json:"listing"`
 	Paths   []string `json:"paths"` // URL paths (already decoded form, as r.URL.Path carries them)
 	SendFile []string `json:"send_file,omitempty"`
+	EvilName string   `json:"evil_name,omitempty"` // name of the sibling directory that looks like the root ("root")
+}
+
+// siblings of the root whose name a careless containment test takes for the root itself:
+// a prefix extension, the same letters in another case, a trailing dot or space, a doubled name
+var evilNames = []string{"root-evil", "root-evil", "ROOT", "Root", "rooT", "root.", "root ", "rootroot", "root~", "r\u00f6ot"}
+
+func (c c17Case) evil() string {
+	if c.EvilName == "" {
+		return "root-evil"
+	}
+	return c.EvilName
 }
 
 var names = []string{"a", "b", "sub", "index.html", "f.txt", "deep", "x.css", "lnk", "lnk2", "d.dir"}
@@ -50,6 +62,7 @@ func relPath(rt *rapid.T) string {
 func genC17(rt *rapid.T) c17Case {
 	c := c17Case{Index: []string{"index.html", "index.html", "f.txt"}[lang.Spread(rt, "idx", 3)], Listing: lang.Spread(rt, "list", 2) == 0,
 		Prefix: []string{"", "/static", "/static/", "/a", "/a/b", "/sub"}[lang.Spread(rt, "prefix", 6)]}
+	c.EvilName = evilNames[lang.Spread(rt, "evilname", len(evilNames))]
 	ne := 2 + lang.Spread(rt, "ne", 10)
 	// always something outside worth stealing
 	c.Entries = append(c.Entries, entry{Kind: "file", Area: "outside", Path: "secret.txt"}, entry{Kind: "file", Area: "outside", Path: "odir/index.html"}, entry{Kind: "file", Area: "evil", Path: "f.txt"}, entry{Kind: "file", Area: "root", Path: "plain.txt"})
@@ -62,7 +75,7 @@ func genC17(rt *rapid.T) c17Case {
 		case 5:
 			c.Entries = append(c.Entries, entry{Kind: "file", Area: "outside", Path: relPath(rt)})
 		default:
-			t := []string{"outside:secret.txt", "outside:odir", "outside:odir/index.html", "outside:", "abs:outside:secret.txt", "abs:outside:odir", "root:plain.txt", "root:", "evil:f.txt", "dangling", "loop", "abs:root:plain.txt", "up:../outside/secret.txt", "up:../outside"}[lang.Spread(rt, "lt", 14)]
+			t := []string{"outside:secret.txt", "outside:odir", "outside:odir/index.html", "outside:", "abs:outside:secret.txt", "abs:outside:odir", "root:plain.txt", "root:", "evil:f.txt", "dangling", "loop", "abs:root:plain.txt", "up:../outside/secret.txt", "up:../outside", "evil:", "abs:evil:f.txt", "abs:evil:"}[lang.Spread(rt, "lt", 17)]
 			c.Entries = append(c.Entries, entry{Kind: "link", Area: "root", Path: relPath(rt), Target: t})
 		}
 	}
@@ -91,7 +104,7 @@ func genC17(rt *rapid.T) c17Case {
 		case 9:
 			p = "/" + relPath(rt) + "\x00/secret.txt"
 		case 10:
-			p = "/../root-evil/f.txt"
+			p = "/../" + c.EvilName + "/f.txt"
 		case 11:
 			p = "/"
 		}
@@ -104,7 +117,7 @@ func genC17(rt *rapid.T) c17Case {
 		c.Paths = append(c.Paths, p)
 	}
 	for i, n := 0, lang.Spread(rt, "nsf", 4); i < n; i++ {
-		c.SendFile = append(c.SendFile, []string{"plain.txt", "../outside/secret.txt", "/etc/hostname", "", ".", relPath(rt), "lnk", "sub/../../outside/secret.txt"}[lang.Spread(rt, "sf", 8)])
+		c.SendFile = append(c.SendFile, []string{"plain.txt", "../outside/secret.txt", "/etc/hostname", "", ".", relPath(rt), "lnk", "sub/../../outside/secret.txt", "../" + c.EvilName + "/f.txt"}[lang.Spread(rt, "sf", 9)])
 	}
 	return c
 }
@@ -124,7 +137,7 @@ func scratch() string {
 func runC17(c c17Case) evid.Outcome {
 	base := scratch()
 	defer os.RemoveAll(base)
-	area := map[string]string{"root": filepath.Join(base, "root"), "outside": filepath.Join(base, "outside"), "evil": filepath.Join(base, "root-evil")}
+	area := map[string]string{"root": filepath.Join(base, "root"), "outside": filepath.Join(base, "outside"), "evil": filepath.Join(base, c.evil())}
 	for _, d := range area {
 		os.MkdirAll(d, 0o755)
 	}
